@@ -83,7 +83,7 @@ MResolve ==
   /\ reg[Ev.p][Ev.topic] # "-" =>
        /\ Ev.ok
        /\ Ev.val = Val(Ev.topic, reg[Ev.p][Ev.topic], Ev.now \div I)
-       /\ Ev.dl > Ev.now /\ Ev.ttlpos
+       /\ ("dl" \in DOMAIN Ev) => (Ev.dl > Ev.now /\ Ev.ttlpos)   \* not observable through the marshaler
        /\ Ev.rtopic = Ev.topic
   /\ IF Ev.ok /\ InD(Ev.val) /\ Dec(Ev.val).topic = Ev.topic
        THEN Use(Ev.p, Ev.topic, Ev.val, Dec(Ev.val).per) ELSE UNCHANGED <<held, prev>>
